@@ -6,9 +6,18 @@ Driver ops of C10 (one line each):
   `<env>` = `-` or comma separated node objects `<nodeid>r|l` (object 0, 1, …).
   steps: `s:<id>:<cb>` subscribe, `u:<id>:<cb>` / `u:<id>:*` unsubscribe, `a:<obj>` network[node.id]
   = node, `d:<nodeid>` del network[nodeid], `c:<obj>:<tx>` add_sdo, `n:<id>:<hex>:<ts>` notify,
-  `r:<id>:<hex>:<ts>:<err><rtr>` listener, `z` scanner.reset(), `q` read scanner.nodes.
+  `r:<id>:<hex>:<ts>:<err><rtr>` listener (`is_rx`, standard/extended by the id, no other flag),
+  `r:<id>:<hex>:<ts>:<err><rtr><rx><ext><fd><brs><esi>:<dlc>:<channel>` listener, called the way
+  `can.Notifier` does, with every attribute of the `can.Message` given,
+  `z` scanner.reset(), `q` read scanner.nodes;
+  the mapping API: `i:<obj>` network[node.id] = node, `p:<nodeid>` pop(id), `pd:<nodeid>`
+  pop(id, default), `pi` popitem(), `x` clear(), `up:<form>:<obj>+<obj>…` update (form `d` dict,
+  `k` object with keys(), `i` iterable of pairs; `-` = no item), `sd:<obj>` setdefault(node.id, node),
+  `v` len / iteration / keys / items / `in` / get.
   `<cb>` = `u<k>` (user callback; k ≥ 6 raises), `L` (LSS handler), `o<obj>.s<chan>|hb|em|nc|rq`.
-  Output: one token per step: `ok`/`err`, `ok[cb,…]`/`err[cb,…]`, `q[…]`.
+  Output: one token per step: `ok`/`err`, `ok[cb,…]`/`err[cb,…]`, `q[…]`; `ok=o<obj>` / `ok=D` (pop,
+  setdefault), `ok=<nodeid>/o<obj>` (popitem), `ok<nodeid,…>` / `err<…>` (clear: the ids still in the
+  network), `err@<k>` (update raised at item k), `v[<nodeid>=o<obj>,…]`.
 * `tx <id> <hex> <remote> <connected>` — `Network.send_message`; `ptx <id> <hex> <remote>` —
   `PeriodicMessageTask`.  Output `ok <id> <ext> <hex> <remote>` or `err`.
 * `scan <ids>` — a fresh `NodeScanner` fed the ids in order; output `q[…]`.
@@ -70,6 +79,12 @@ def parseEnv (s : String) : Option Env := do
 inductive Step where
   | op (o : Op)
   | query
+  | view
+
+def parseFlag (c : Char) : Option Bool := parseBool (String.ofList [c])
+
+def parseObjs (s : String) : Option (List Nat) :=
+  if s = "-" then some [] else (s.splitOn "+").mapM (·.toNat?)
 
 def parseStep (s : String) : Option Step :=
   match s.splitOn ":" with
@@ -86,10 +101,30 @@ def parseStep (s : String) : Option Step :=
     | [e, r] => do
       let e ← parseBool (String.ofList [e])
       let r ← parseBool (String.ofList [r])
-      pure (.op (.receive ⟨← id.toNat?, ← parseHex h, ← ts.toNat?, e, r⟩))
+      let id ← id.toNat?
+      pure (.op (.receive { id := id, data := ← parseHex h, ts := ← ts.toNat?, isError := e,
+                            isRemote := r, isExtended := decide (id > 0x7FF) }))
+    | _ => none
+  | ["r", id, h, ts, fl, dlc, ch] =>
+    match fl.toList with
+    | [e, r, rx, ext, fd, brs, esi] => do
+      pure (.op (.receive { id := ← id.toNat?, data := ← parseHex h, ts := ← ts.toNat?,
+                            isError := ← parseFlag e, isRemote := ← parseFlag r,
+                            isRx := ← parseFlag rx, isExtended := ← parseFlag ext,
+                            isFd := ← parseFlag fd, brs := ← parseFlag brs, esi := ← parseFlag esi,
+                            dlc := ← dlc.toNat?, channel := ← ch.toNat? }))
     | _ => none
   | ["z"] => some (.op .scanReset)
   | ["q"] => some .query
+  | ["v"] => some .view
+  | ["i", o] => do pure (.op (.setNode (← o.toNat?)))
+  | ["p", n] => do pure (.op (.popNode (← n.toNat?) false))
+  | ["pd", n] => do pure (.op (.popNode (← n.toNat?) true))
+  | ["pi"] => some (.op .popItem)
+  | ["x"] => some (.op .clear)
+  | ["up", form, os] =>
+    if form = "d" ∨ form = "k" ∨ form = "i" then do pure (.op (.update (← parseObjs os))) else none
+  | ["sd", o] => do pure (.op (.setDefault (← o.toNat?)))
   | _ => none
 
 def showNodes (l : List Nat) : String := "q[" ++ String.intercalate "," (l.map toString) ++ "]"
@@ -98,16 +133,41 @@ def showOut (withCalls : Bool) (o : Out) : String :=
   let r := if o.ok then "ok" else "err"
   if withCalls then r ++ "[" ++ String.intercalate "," (o.calls.map fun c => showCb c.cb) ++ "]" else r
 
+def showRet : Ret → String
+  | .nothing => ""
+  | .obj o => s!"=o{o}"
+  | .item k o => s!"={k}/o{o}"
+  | .dflt => "=D"
+  | .stored k => s!"@{k}"
+
+def showKeys (n : Net) : String := String.intercalate "," (n.keys.map toString)
+
+/-- `len`, iteration, `keys()`, `items()`, `in`, `get` of the network: node ids in iteration order
+    with the object filed under each -/
+def showView (n : Net) : String :=
+  "v[" ++ String.intercalate "," (n.keys.map fun k =>
+    match n.nodes k with
+    | some o => s!"{k}=o{o}"
+    | none => s!"{k}=?") ++ "]"
+
+def showStep (E : Env) (n : Net) (o : Op) (a : Net × Out) : String :=
+  match o with
+  | .notify _ => showOut true a.2
+  | .receive _ => showOut true a.2
+  | .clear => showOut false a.2 ++ "<" ++ showKeys a.1 ++ ">"
+  | .update _ => if a.2.ok then "ok" else "err" ++ showRet (ret E n o)
+  | .popNode _ _ => if a.2.ok then "ok" ++ showRet (ret E n o) else "err"
+  | .popItem => if a.2.ok then "ok" ++ showRet (ret E n o) else "err"
+  | .setDefault _ => if a.2.ok then "ok" ++ showRet (ret E n o) else "err"
+  | _ => showOut false a.2
+
 def runSteps (E : Env) : Net → List Step → List String → List String
   | _, [], acc => acc.reverse
   | n, .query :: r, acc => runSteps E n r (showNodes n.scan :: acc)
+  | n, .view :: r, acc => runSteps E n r (showView n :: acc)
   | n, .op o :: r, acc =>
     let a := step E n o
-    let wc := match o with
-      | .notify _ => true
-      | .receive _ => true
-      | _ => false
-    runSteps E a.1 r (showOut wc a.2 :: acc)
+    runSteps E a.1 r (showStep E n o a :: acc)
 
 def showMsg : Option CanMsg → String
   | none => "err"
